@@ -25,7 +25,7 @@ Definition ex_R (r : Z) := EReg None r.
 (*   0:  I0 = 3;
      10: L0:  ins_7(I0 * 2 + 1, 2, I1 - I0);
      20: I1 += I0 * 2 + (I1 - 1);   if (--I0 > 0) goto L0;
-     30: I2 = I1 > 10 ? 1 : I1 * 5;   unless (I2 == 1 || I1 < 0) goto L1 @ 30;
+     30: I2 = I1 > 10 ? 1 : I1 * 5;   I2 += I1 < 0 ? 7 : 0;   unless (I2 == 1 || I1 < 0) goto L1 @ 30;
      40: ins_8();  L1:  int x = I2 == 1 ? I1 + 1 : 0;  {"H"}: ins_8();  ins_9(x, I1 >= 27 ? I2 + 2 : 0);  (end of x's scope)  ;
          int y;  (end of y's scope)  int y2, z = I1 + 1;  ins_9(z, y2);  (end of z's, y2's scope)     *)
 Definition ex_body : list (Z * Z * sstmt) := [
@@ -35,6 +35,7 @@ Definition ex_body : list (Z * Z * sstmt) := [
   (20, 255, SAssign (mkvar None (VReg 1011)) (Some Add) (EBin (EBin (ex_R 1010) Mul (ELitI 2)) Add (EBin (ex_R 1011) Sub (ELitI 1))));
   (20, 255, SCondJmp KwIf (CPredecCmp (mkvar None (VReg 1010)) Gt) (LUser 0) None);
   (30, 255, SAssign (mkvar None (VReg 1012)) None (ETern (EBin (ex_R 1011) Gt (ELitI 10)) (ELitI 1) (EBin (ex_R 1011) Mul (ELitI 5))));
+  (30, 255, SAssign (mkvar None (VReg 1012)) (Some Add) (ETern (EBin (ex_R 1011) Lt (ELitI 0)) (ELitI 7) (ELitI 0)));
   (30, 255, SCondJmp KwUnless (CExpr (EBin (EBin (ex_R 1012) Eq (ELitI 1)) LogicOr (EBin (ex_R 1011) Lt (ELitI 0)))) (LUser 1) (Some 30));
   (40, 255, SCall 8 []);
   (40, 255, SLabel (LUser 1));
@@ -55,17 +56,19 @@ Definition ex_st0 := mkpst (mkmem (fun _ => VInt 0) (fun _ => VInt 0)) 0 0 [].
 Lemma body_example :
   let rty := fun _ : Z => TInt in let lty := fun _ : nat => TInt in let libm := fun (_ : unop) (_ : Z) => 0 in
   exists code s' st',
-    lower_body ex_avail true rty lty 20 ex_body (mklst 2 []) = Ok (code, s') /\ length code = 57%nat /\
+    lower_body ex_avail true rty lty 20 ex_body (mklst 2 []) = Ok (code, s') /\ length code = 66%nat /\
     wf_body rty lty 2 ex_body /\ fresh lty (p_mem ex_st0) 2 /\
     sprog gen_optable libm rty lty 0 (Some 0%nat) true 10 ex_body Exec ex_st0 = Ok st' /\
     p_time st' = 40 /\ p_real st' = 60 /\ length (p_log st') = 6%nat /\ regs (p_mem st') 1011 = VInt 27 /\
     wprog gen_optable libm lty (Some 0%nat) 10 code Exec ex_st0 None = Ok st'.
 Proof.
   cbv zeta.
-  destruct (lower_body ex_avail true (fun _ => TInt) (fun _ => TInt) 20 ex_body (mklst 2 [])) as [[code s']| | |] eqn:El;
-    try (vm_compute in El; discriminate).
-  destruct (sprog gen_optable (fun _ _ => 0) (fun _ => TInt) (fun _ => TInt) 0 (Some 0%nat) true 10 ex_body Exec ex_st0) as [st'| | |] eqn:Es;
-    try (vm_compute in Es; discriminate).
+  assert (El : exists code s', lower_body ex_avail true (fun _ => TInt) (fun _ => TInt) 20 ex_body (mklst 2 []) = Ok (code, s'))
+    by (vm_compute; eexists; eexists; reflexivity).
+  destruct El as [code [s' El]].
+  assert (Es : exists st', sprog gen_optable (fun _ _ => 0) (fun _ => TInt) (fun _ => TInt) 0 (Some 0%nat) true 10 ex_body Exec ex_st0 = Ok st')
+    by (vm_compute; eexists; reflexivity).
+  destruct Es as [st' Es].
   assert (Hwf : wf_body (fun _ => TInt) (fun _ => TInt) 2 ex_body).
   { unfold wf_body, ex_body.
     apply Forall_cons. { cbn [snd wf_stmt]. split; [exact I|]. split; [reflexivity|]. left. reflexivity. }
@@ -74,7 +77,8 @@ Proof.
                          apply Forall_cons; [split; reflexivity|]. apply Forall_cons; [split; reflexivity|]. apply Forall_nil. }
     apply Forall_cons. { cbn [snd wf_stmt]. split; [exact I|]. split; [reflexivity|]. left. reflexivity. }
     apply Forall_cons. { cbn [snd wf_stmt]. split; exact I. }
-    apply Forall_cons. { cbn [snd wf_stmt]. split; [exact I|]. split; [reflexivity|]. right. split; reflexivity. }
+    apply Forall_cons. { cbn [snd wf_stmt]. split; [exact I|]. split; [reflexivity|]. right. reflexivity. }
+    apply Forall_cons. { cbn [snd wf_stmt]. split; [exact I|]. split; [reflexivity|]. right. reflexivity. }
     apply Forall_cons. { cbn [snd wf_stmt]. split; [reflexivity|]. split; [reflexivity | exact I]. }
     apply Forall_cons. { cbn [snd wf_stmt]. apply Forall_nil. }
     apply Forall_cons. { exact I. }
@@ -93,9 +97,9 @@ Proof.
     apply Forall_nil. }
   assert (Hfr : fresh (fun _ => TInt) (p_mem ex_st0) 2) by (intros d _; reflexivity).
   exists code, s', st'.
-  split; [reflexivity|].
+  split; [exact El|].
   split; [vm_compute in El; inversion El; reflexivity|].
-  split; [exact Hwf|]. split; [exact Hfr|]. split; [reflexivity|].
+  split; [exact Hwf|]. split; [exact Hfr|]. split; [exact Es|].
   split; [vm_compute in Es; inversion Es; reflexivity|].
   split; [vm_compute in Es; inversion Es; reflexivity|].
   split; [vm_compute in Es; inversion Es; reflexivity|].
